@@ -342,6 +342,8 @@ def _sim_apply(sim, op):
         sim["laser"]["profile"] = dict(op["pr"])
     elif k == "l_spectrum":
         sim["laser"]["spectrum"] = dict(op["sp"])
+    elif k == "lp_pol":
+        sim["laser"]["profile"]["pol"] = op["v"]
     elif k == "lp_set":
         sim["laser"]["profile"][op["attr"]] = op["v"]
     elif k == "ls_set":
@@ -360,7 +362,7 @@ B_OPS = ["b_energy", "b_power", "b_temperature", "b_sigma", "b_divergence_x", "b
 
 
 L_OPS = ["l_transform", "l_transform", "l_parent", "l_importance", "l_integrator", "l_integrator_step", "l_spectrum", "l_profile",
-         "l_models_set", "l_plasma", "lp_set", "lp_set", "lp_set", "ls_set", "ls_set", "node_transform"]
+         "l_models_set", "l_plasma", "lp_set", "lp_set", "lp_set", "lp_pol", "ls_set", "ls_set", "node_transform"]
 
 
 def gen_laser_op(rng, sim, k):
@@ -381,6 +383,8 @@ def gen_laser_op(rng, sim, k):
         return dict(op=k, list=[dict(kind="thomson")] if rng.random() < 0.7 else [])
     if k == "l_plasma":
         return dict(op=k)
+    if k == "lp_pol":
+        return dict(op=k, v=g_pol(rng))
     if k == "lp_set":
         pr = lc["profile"]
         attrs = [a for a in pr if a not in ("kind", "pol")]
@@ -411,7 +415,7 @@ REPLACING_OPS = {"p_models_set", "p_models_assign", "p_models_add", "p_models_cl
                  "p_integrator", "b_integrator", "l_integrator"}
 STATE_OPS = {"p_comp_add", "p_comp_set", "p_comp_assign", "p_electrons", "p_bfield", "p_atomic", "p_transform", "node_transform",
              "b_energy", "b_power", "b_element", "b_sigma", "b_length", "b_transform", "b_atomic", "att_step", "att_clamp_sigma",
-             "bm_line", "lp_set", "ls_set", "l_transform", "l_importance", "pm_gaunt"}
+             "bm_line", "lp_set", "lp_pol", "ls_set", "l_transform", "l_importance", "pm_gaunt"}
 
 
 def gen_op(rng, sim):
